@@ -176,7 +176,29 @@ def _lib_events():
         "nested_type_error_rf": lambda: ("PAIR", ag.grad(_after_inner_failure(ag, ag.deriv, "str"))(1.5), 12.0),
         "nested_vector_output_error": lambda: ("PAIR", ag.grad(_after_inner_failure(ag, ag.grad, "vector"))(1.5), 12.0),
         "nested_missing_rule_error": lambda: ("PAIR", ag.grad(_after_inner_failure(ag, ag.grad, "norule", Lb))(1.5), 12.0),
+        # calls whose arguments compare EQUAL as Python values but mean different things (a memo keyed on them would confuse the two), and the same
+        # shapes broadcast in different positions
+        "index_int_list": lambda: ("PAIR", ag.grad(lambda x: np.sum(x[[1, 1]] * onp.array([2.0, 5.0])))(onp.array([0.3, 0.6])), onp.array([0.0, 7.0])),
+        "index_bool_list": lambda: ("PAIR", ag.grad(lambda x: np.sum(x[[True, True]] * onp.array([2.0, 5.0])))(onp.array([0.3, 0.6])), onp.array([2.0, 5.0])),
+        "index_int_list01": lambda: ("PAIR", ag.grad(lambda x: np.sum(x[[0, 1]] * onp.array([2.0, 5.0])))(onp.array([0.3, 0.6])), onp.array([2.0, 5.0])),
+        "index_bool_list01": lambda: ("PAIR", ag.grad(lambda x: np.sum(x[[False, True]] * 7.0))(onp.array([0.3, 0.6])), onp.array([0.0, 7.0])),
+        "broadcast_leading": lambda: ("PAIR", ag.grad(lambda u: np.sum((u + _Y3()) * _W3()))(onp.array([0.1, 0.2, 0.3])), _W3().sum(0)),
+        "einsum_trailing_ellipsis": lambda: ("PAIR", ag.grad(lambda v: np.sum(np.einsum(v, [0, Ellipsis], _Y3(), [0, Ellipsis], [0, Ellipsis]) * _W3()))(onp.array([0.1, 0.2, 0.3])),
+                                             (_Y3() * _W3()).sum(1)),
+        "take_float32_index_then_int64": lambda: ("PAIR", [ag.grad(lambda x: np.sum(x[onp.array([1, 1], dtype=onp.int32)]))(onp.array([0.3, 0.6])),
+                                                           ag.grad(lambda x: np.sum(x[onp.array([1, 0], dtype=onp.int64)] * onp.array([1.0, 3.0])))(onp.array([0.3, 0.6]))],
+                                                  [onp.array([0.0, 2.0]), onp.array([3.0, 1.0])]),
     }
+
+
+def _Y3():
+    import numpy
+    return numpy.arange(9.0).reshape(3, 3) * 0.5 - 1.0
+
+
+def _W3():
+    import numpy
+    return numpy.array([[1.0, -2.0, 0.5], [0.25, 3.0, -1.0], [2.0, 0.0, 1.5]])
 
 
 def _after_inner_failure(ag, D, how, Lb=None):
@@ -228,7 +250,8 @@ def _det_singular_twice(Lb):
 LIB_EVENTS = ["eigh_degenerate", "eigh_degenerate3", "inv_singular", "cholesky_not_pd", "f32_shapes", "f16_c64_shapes", "errstate_raise",
               "sqrt_at_zero", "bad_shape_forward", "int_argument", "fwd_inv_singular", "flatten_unflattenable_leaf", "flatten_func_bad_then_good",
               "det_singular_twice", "const_graph_leaky", "revconst_reverse", "revconst_forward", "nested_type_error_rr", "nested_type_error_ff", "nested_type_error_rf",
-              "nested_vector_output_error", "nested_missing_rule_error"]
+              "nested_vector_output_error", "nested_missing_rule_error", "index_int_list", "index_bool_list", "index_int_list01", "index_bool_list01",
+              "broadcast_leading", "einsum_trailing_ellipsis", "take_float32_index_then_int64"]
 
 
 def run_event(ev):
@@ -400,6 +423,9 @@ def canaries():
         ("arr0d", lambda: g(lambda x: np.sin(x) * x[()])(onp.array(0.7)), math.cos(.7) * .7 + math.sin(.7)),
         ("flatten", lambda: list(Lb["flatten"]((1.5, {"b": a2, "a": [2.5]}))[0]) + list(g(lambda v: np.sum(Lb["flatten"]((v, v * v))[0] ** 2))(a2)),
          [1.5, 2.5, 0.1, 0.2, 2 * 0.1 + 4 * 0.1 ** 3, 2 * 0.2 + 4 * 0.2 ** 3]),
+        ("index_lists", lambda: [g(lambda x: np.sum(x[[1, 1]] * onp.array([2.0, 5.0])))(a2), g(lambda x: np.sum(x[[True, True]] * onp.array([2.0, 5.0])))(a2),
+                                 g(lambda x: np.sum(x[[False, True]] * 7.0))(a2), g(lambda x: np.sum(x[[0, 1]] * onp.array([2.0, 5.0])))(a2)],
+         [[0.0, 7.0], [2.0, 5.0], [0.0, 7.0], [2.0, 5.0]]),
         ("leaky", lambda: g(Lb["leaky"])(Lb["x_leaky"]), [0.02 * -1.5, 1.0, 4.0, 0.02 * -0.25]),
         ("revconst", lambda: [g(lambda x: x * Lb["rev_const"](x))(1.7), d(lambda x: x * Lb["rev_const"](x))(1.7)], [1.7, 3.4]),
         ("det", lambda: g(lambda A_: np.linalg.det(A_))(onp.array([[2.0, 0.5], [0.25, 1.0]])), [[1.0, -0.25], [-0.5, 2.0]]),
